@@ -5,7 +5,8 @@ Driver ops for `Model.ConnRead` (the buffering logic of `Conn.Read` and `Conn.re
       records : comma list; `d:<hex>` application data, `e` empty application-data record, `c` close_notify,
                 `w` warning alert (not close_notify), `f` fatal alert, `b`/`ba` record with a wrong MAC (data / alert
                 typed), `h` handshake record, `s` ChangeCipherSpec record, `t`/`ta` transport ends inside the body of
-                a (data / alert typed) record, `u`/`ua` transport ends inside its header, `x` end of the transport
+                a (data / alert typed) record, `u`/`ua` transport ends inside its header (`u1`..`u4`, `ua1`..`ua4`:
+                after that many header bytes; `u` = `u3`), `x` end of the transport
                 (also implied by the end of the list), `|` a transport read boundary in front of the next record.
                 A suffix `/k` on a record (the transport is cut additionally k bytes into this record) is for
                 the Go side only: the model does not depend on it.
@@ -17,7 +18,7 @@ Driver ops for `Model.ConnRead` (the buffering logic of `Conn.Read` and `Conn.re
       `unmarshal`) and 14 (empty body) are accepted, every other type used here is one the type switch refuses
       result  : the messages in hex and the final outcome, `/` separated
   hsrecs <records> <calls>
-      records : `h:<hex>` handshake, `s` ChangeCipherSpec, `a` application data, `c`, `w`, `f`, `t`, `u`, `x`
+      records : `h:<hex>` handshake, `s` ChangeCipherSpec, `a` application data, `c`, `w`, `f`, `t`, `u` (`u1`..`u4`), `x`
       calls   : a string of `m` (readHandshake) and `s` (readRecord(recordTypeChangeCipherSpec))
       result  : per call `m:<hex>` | `-` | `eof` | `err:<class>`, comma separated
 -/
@@ -59,10 +60,10 @@ def crParseRecs : List String → Bool → List Item → Option (List Item)
       else if t = "ba" then one (.fail true .badRecord)
       else if t = "h" then one (.fail false .noRenegotiation)
       else if t = "s" then one (.fail false .unexpectedMessage)
-      else if t = "t" then last (.fail false .unexpectedEOF)
-      else if t = "ta" then last (.fail true .unexpectedEOF)
-      else if t = "u" then last (.fail false .eof)
-      else if t = "ua" then last (.fail true .eof)
+      else if t = "t" then last (Rec.truncated false)
+      else if t = "ta" then last (Rec.truncated true)
+      else if ["u", "u1", "u2", "u3", "u4"].contains t then last (Rec.truncated false)   -- cut inside the header
+      else if ["ua", "ua1", "ua2", "ua3", "ua4"].contains t then last (Rec.truncated true)
       else if t.startsWith "d:" then
         match ofHex (t.drop 2).toString with
         | some p => one (.data p)
@@ -120,7 +121,7 @@ def crParseHRecs : List String → List HRec → Option (List HRec)
     else if t = "w" then crParseHRecs rest (.warning :: acc)
     else if t = "f" then crParseHRecs rest (.fail .remote :: acc)
     else if t = "t" then some ((HRec.trunc true :: acc).reverse)
-    else if t = "u" then some ((HRec.trunc false :: acc).reverse)
+    else if ["u", "u1", "u2", "u3", "u4"].contains t then some ((HRec.trunc false :: acc).reverse)
     else if t.startsWith "h:" then
       match ofHex (t.drop 2).toString with
       | some p => crParseHRecs rest (.hs p :: acc)
